@@ -482,7 +482,11 @@ def pytest_sessionfinish(session, exitstatus):
                     diff = file.diff()
                     if diff:
                         header()
-                        name = file.filename.relative_to(Path.cwd())
+                        try:
+                            name = file.filename.relative_to(Path.cwd())
+                        except ValueError:
+                            # pytest was started outside of the directory of the test file
+                            name = file.filename
                         console().print(
                             Panel(
                                 Syntax(diff, "diff", theme="ansi_light"),
